@@ -43,4 +43,5 @@ for i in ids:
               [u for v in out.values() for u in v.get('failing_units', [])])
     finally:
         subprocess.run(['git', '-C', '/repo', 'checkout', '--', '.'], check=True)
+    json.dump(res, open(resf, 'w'), indent=1)
 json.dump(res, open(resf, 'w'), indent=1)
